@@ -428,6 +428,7 @@ fn handle_discover(
                         .options
                         .clone()
                         .set_option(&dhcppkt::OPTION_SERVERID, &req.serverip)
+                        .set_option(&dhcppkt::OPTION_LEASETIME, &(lease.expire.as_secs() as u32))
                         .to_options(),
                 })
             }
